@@ -210,6 +210,10 @@ func runChunk(cfg runCfg, cases []Case, res []Res, lo, hi int) {
 			}
 		}()
 		restart := false
+		var cpuBase int64 // CPU time of the child before the outstanding case (tracked in isolation mode only)
+		if cfg.Workers == 1 {
+			cpuBase = max(0, procCPUms(ch.cmd.Process.Pid))
+		}
 		for i < hi && !restart {
 			timer := time.NewTimer(cfg.Timeout + 500*time.Millisecond) // + process start / pipe slack
 			select {
@@ -239,8 +243,11 @@ func runChunk(cfg runCfg, cases []Case, res []Res, lo, hi int) {
 				}
 				res[i] = Res{Status: f[1], Ms: ms, Peak: pk, Alloc: al, Detail: det, Over: over}
 				i++
+				if cfg.Workers == 1 {
+					cpuBase = max(0, procCPUms(ch.cmd.Process.Pid))
+				}
 			case <-timer.C:
-				res[i] = Res{Status: "timeout", Ms: cfg.Timeout.Milliseconds(), Detail: "no result within the watchdog"}
+				res[i] = Res{Status: "timeout", Ms: cfg.Timeout.Milliseconds(), Detail: fmt.Sprintf("no result within the watchdog cpu=%d", procCPUms(ch.cmd.Process.Pid)-cpuBase)}
 				i++
 				restart = true
 			}
@@ -251,6 +258,26 @@ func runChunk(cfg runCfg, cases []Case, res []Res, lo, hi int) {
 			pool.put(ch, cfg)
 		}
 	}
+}
+
+// procCPUms: user+system CPU time consumed so far by a process, in ms (USER_HZ = 100); -1 if unknown.
+func procCPUms(pid int) int64 {
+	b, err := os.ReadFile(fmt.Sprintf("/proc/%d/stat", pid))
+	if err != nil {
+		return -1
+	}
+	s := string(b)
+	k := strings.LastIndex(s, ")")
+	if k < 0 {
+		return -1
+	}
+	f := strings.Fields(s[k+1:])
+	if len(f) < 13 {
+		return -1
+	}
+	ut, _ := strconv.ParseInt(f[11], 10, 64)
+	st, _ := strconv.ParseInt(f[12], 10, 64)
+	return (ut + st) * 10
 }
 
 // crashRes turns the stderr of a dead child into a result.
